@@ -54,6 +54,12 @@ FILE
 #define ATOM_CACHE_SIZE 4
 
 /* Swap cache elements using XOR operator. Ugly but fast... */
+#ifdef H4_VERIF
+/* verification hook: identical swap through a temporary, so that a symbolic
+ * executor keeps pointer provenance (XOR of pointers loses it) */
+static void h4v_swap_cache(unsigned i, unsigned j);
+#define SWAP_CACHE(i, j) h4v_swap_cache((i), (j))
+#else
 #define SWAP_CACHE(i, j)                                                                                     \
     atom_id_cache[i] ^= atom_id_cache[j],                                                                    \
         atom_obj_cache[i] = (void *)((intptr_t)atom_obj_cache[j] ^ (intptr_t)atom_obj_cache[i]),             \
@@ -61,6 +67,7 @@ FILE
         atom_obj_cache[j] = (void *)((intptr_t)atom_obj_cache[i] ^ (intptr_t)atom_obj_cache[j]),             \
         atom_id_cache[i] ^= atom_id_cache[j],                                                                \
         atom_obj_cache[i] = (void *)((intptr_t)atom_obj_cache[i] ^ (intptr_t)atom_obj_cache[j])
+#endif /* H4_VERIF */
 
 /********************
  * Private typedefs *
@@ -99,6 +106,18 @@ static atom_info_t *atom_free_list = NULL;
  */
 static atom_t atom_id_cache[ATOM_CACHE_SIZE]  = {-1, -1, -1, -1};
 static void  *atom_obj_cache[ATOM_CACHE_SIZE] = {NULL, NULL, NULL, NULL};
+#ifdef H4_VERIF
+static void
+h4v_swap_cache(unsigned i, unsigned j)
+{
+    atom_t tid          = atom_id_cache[i];
+    void  *tobj         = atom_obj_cache[i];
+    atom_id_cache[i]    = atom_id_cache[j];
+    atom_obj_cache[i]   = atom_obj_cache[j];
+    atom_id_cache[j]    = tid;
+    atom_obj_cache[j]   = tobj;
+}
+#endif /* H4_VERIF */
 
 /*******************************
  * Private function prototypes *
